@@ -1,6 +1,6 @@
 use alloc::vec::Vec;
 
-use hashbrown::HashMap;
+use hashbrown::{HashMap, HashSet};
 use p3_field::Field;
 
 use super::analysis::AluKey;
@@ -14,6 +14,11 @@ use crate::types::WitnessId;
 pub(super) struct Deduplicator {
     rewrite: HashMap<WitnessId, WitnessId>,
     seen: HashMap<AluKey, WitnessId>,
+    /// Witness slots referenced by any op kept so far. The rewrite only reaches later ops,
+    /// so an op whose output slot is already bound (a public input, a constant, a hint
+    /// output, an operand of an earlier op) must stay: it is the only place that ties
+    /// that slot to `a op b`.
+    bound: HashSet<WitnessId>,
 }
 
 impl Deduplicator {
@@ -21,6 +26,7 @@ impl Deduplicator {
         Self {
             rewrite: HashMap::new(),
             seen: HashMap::new(),
+            bound: HashSet::new(),
         }
     }
 
@@ -34,7 +40,9 @@ impl Deduplicator {
         for mut op in ops {
             op.apply_witness_rewrite(&self.rewrite);
 
-            if let Some((dup_out, canonical)) = self.detect_duplicate(&op) {
+            if let Some((dup_out, canonical)) = self.detect_duplicate(&op)
+                && !self.bound.contains(&dup_out)
+            {
                 let root = canonical.resolve(&self.rewrite);
                 if dup_out != root {
                     self.rewrite.insert(dup_out, root);
@@ -42,10 +50,44 @@ impl Deduplicator {
                 continue;
             }
 
+            self.mark_bound(&op);
             result.push(op);
         }
 
         (result, self.rewrite)
+    }
+
+    /// Records every witness slot `op` reads or writes.
+    fn mark_bound<F: Field>(&mut self, op: &Op<F>) {
+        match op {
+            Op::Const { out, .. } | Op::Public { out, .. } => {
+                self.bound.insert(*out);
+            }
+            Op::Alu {
+                a,
+                b,
+                c,
+                out,
+                intermediate_out,
+                ..
+            } => {
+                self.bound.extend([*a, *b, *out]);
+                self.bound.extend(c.iter().copied());
+                self.bound.extend(intermediate_out.iter().copied());
+            }
+            Op::Hint {
+                inputs, outputs, ..
+            } => {
+                self.bound.extend(inputs.iter().copied());
+                self.bound.extend(outputs.iter().copied());
+            }
+            Op::NonPrimitiveOpWithExecutor {
+                inputs, outputs, ..
+            } => {
+                self.bound.extend(inputs.iter().flatten().copied());
+                self.bound.extend(outputs.iter().flatten().copied());
+            }
+        }
     }
 
     /// Returns `Some((duplicate_out, canonical_out))` when `op` duplicates an earlier ALU.
